@@ -46,6 +46,12 @@ B_R = "A->R_CD.BR_CD->C.D_total_0r"
 B_I = "A->R_CD.BR_CD->C.D_total_0i"
 IDENT_REL, IDENT_ABS = 1e-8, 1e-12
 FD_REL, FD_ABS, FD_AGREE = 1e-5, 1e-7, 1e-6
+PINNED = {"hessp": "full", "tied": "include", "sumvar": "own"}
+DRIFT = {
+    "hessp": ("zero", "grad_hessp:gauss_constr_hessian_missing", "FCN.grad_hessp adds no Gaussian-constraint Hessian"),
+    "tied": ("skip", "gauss_constr:tied_name:nll_grad", "a constraint on a tied (non-head) name is in the NLL but not in gradient / Hessian"),
+    "sumvar": ("sum", "simple_cfit:nll_grad_hessian:sumvar_hessian", "SumVar.__call__ uses the Hessians of all factors for every factor"),
+}
 
 
 def jets_cfg(path, part, grid, v, filt="ok", inv=None):
@@ -250,12 +256,21 @@ def run(ctx):
     quick = ctx.tier == "quick"
     rng = random.Random(ctx.seed)
     fac = Factory(ctx.seed, pool_size=96)
-    v = probe_variants(ctx, fac)
-    ctx.log("code variants (by behaviour):", v)
+    # Three switches of the specification are pinned to the repaired code (fix: commits 59a054f, 3fab827, 83f38f8);
+    # CfitHessp follows the observed behaviour (still a listed finding).  The working tree is observed all the
+    # same: a reappearance of a repaired behaviour is a violation under its old key, never a change of the spec.
+    det = probe_variants(ctx, fac)
+    v = dict(det)
+    v.update(PINNED)
+    ctx.log("code variants (by behaviour):", det, "specification pinned to:", PINNED)
+    for sw_, (bad_value, key, what) in DRIFT.items():
+        if det[sw_] == bad_value:
+            ctx.violation(key, {"drift": "the working tree shows the behaviour repaired earlier", "switch": sw_, "observed": bad_value, "what": what})
+    ctx.part("switches", observed=det, used_by_tlc=v)
     wdir = ctx.work
 
     # ------------------------------------------------------------------ TLC
-    grid = {"lemma": "full", "default": "full", "cfit": "small" if quick else "full", "bound": "small" if quick else "full", "constr": "full"}
+    grid = {"lemma": "small" if quick else "full", "default": "full", "cfit": "small" if quick else "full", "bound": "small" if quick else "full", "constr": "full"}
     for part in ("lemma", "default", "cfit", "bound", "constr"):
         inv = list(JET_INV[part])
         if part == "constr" and v["hessp"] == "full":
@@ -265,40 +280,54 @@ def run(ctx):
             raise tlc.MachineryError("Jets.tla part %s: formula %s is refuted (%s); either the transcription is wrong or the code has a defect the specification does not list"
                                      % (part, r.violation, r.trace[-1:] if r.trace else ""))
         ctx.tlc(r, "Jets: " + part + " (" + grid[part] + " grid)", vacuity_actions=(["Expand"] if part in ("lemma", "constr") else None))
-        if r.distinct < 100:
+        if r.distinct < 50:
             raise tlc.MachineryError("Jets.tla part %s: only %d states" % (part, r.distinct))
         ctx.log("TLC %s: %d states, %.0fs" % (part, r.distinct, r.wall))
     predicted = {}
-    for name, part, inv, filt, active in (
-        ("grad_hessp omits the Gaussian-constraint Hessian", "constr", "ConstrHesspFormula", "ok", v["hessp"] == "zero"),
-        ("constraint on a tied (non-head) name missing from gradient and Hessian", "constr", "ConstrGradFormula", "affected", v["tied"] == "skip"),
-        ("cfit models inherit the Hessian-vector product of the default NLL", "hesspkind", "HesspKindFormula", "ok", v["cfith"] == "inherited"),
-        ("SumVar second-order term uses the Hessians of all factors", "sumvar", "SumVarFormula", "ok", v["sumvar"] == "sum"),
+    counterfactual = []
+    for name, part, inv, filt, sw_, bad in (
+        ("grad_hessp omits the Gaussian-constraint Hessian", "constr", "ConstrHesspFormula", "ok", "hessp", "zero"),
+        ("constraint on a tied (non-head) name missing from gradient and Hessian", "constr", "ConstrGradFormula", "affected", "tied", "skip"),
+        ("cfit models inherit the Hessian-vector product of the default NLL", "hesspkind", "HesspKindFormula", "ok", "cfith", "inherited"),
+        ("SumVar second-order term uses the Hessians of all factors", "sumvar", "SumVarFormula", "ok", "sumvar", "sum"),
     ):
-        r = tlc.run("Jets", jets_cfg(os.path.join(wdir, "jets_x_%s.cfg" % inv), part, "full", v, filt=filt, inv=[inv]), work=wdir, workers=8, coverage=False, timeout=600, expect_violation=True)
+        active = v[sw_] == bad
+        invs = [inv]
+        if not active and part == "constr":
+            invs = ["ConstrGradFormula", "ConstrHessFormula"] + (["ConstrHesspFormula"] if v["hessp"] == "full" else [])
+        r = tlc.run("Jets", jets_cfg(os.path.join(wdir, "jets_x_%s.cfg" % inv), part, "full", v, filt=filt, inv=invs), work=wdir, workers=8, coverage=False, timeout=600, expect_violation=True)
         if active and r.violation != inv:
             raise tlc.MachineryError("Jets.tla: %s expected to be refuted for '%s', TLC says %s" % (inv, name, r.violation))
         if not active and r.violation:
-            raise tlc.MachineryError("Jets.tla: %s refuted although the code shows the repaired behaviour (%s)" % (inv, name))
-        ctx.tlc(r, "Jets: " + ("design-level finding, " if active else "repaired, ") + name)
+            raise tlc.MachineryError("Jets.tla: %s refuted under the repaired switch value (%s)" % (r.violation, name))
+        ctx.tlc(r, "Jets: " + ("design-level finding, " if active else "repaired, proved: ") + name)
         predicted[inv] = active
         if active:
             ctx.notes.append("TLC refutes %s under the observed code variant: %s" % (inv, name))
+        else:
+            # counterfactual: the old behaviour is still refuted by the specification
+            vo = dict(v)
+            vo[sw_] = bad
+            r = tlc.run("Jets", jets_cfg(os.path.join(wdir, "jets_cf_%s.cfg" % inv), part, "full", vo, filt=filt, inv=[inv]), work=wdir, workers=8, coverage=False, timeout=600, expect_violation=True)
+            if r.violation != inv:
+                raise tlc.MachineryError("Jets.tla: counterfactual %s=%s is not refuted (%s)" % (sw_, bad, r.violation))
+            ctx.tlc(r, "Jets: counterfactual (old behaviour refuted), " + name)
+            counterfactual.append(inv)
     r = tlc.run("Jets", jets_cfg(os.path.join(wdir, "jets_scn.cfg"), "scenarios", "small", v), work=wdir, workers=4, coverage=False, timeout=600)
     scenarios = sorted(r.out["scenarios"], key=lambda s: json.dumps(s, sort_keys=True))
     ctx.tlc(r, "Jets: scenario space")
     if len(scenarios) < 100:
         raise tlc.MachineryError("scenario space too small: %d" % len(scenarios))
-    ctx.part("tlc", scenarios=len(scenarios), predicted_findings=[k for k, a in predicted.items() if a])
+    ctx.part("tlc", scenarios=len(scenarios), predicted_findings=[k for k, a in predicted.items() if a], counterfactual_refutations=counterfactual)
 
     # ---------------------------------------------------------------- replay
     # stratified: every kind; every bound kind, floating set, constraint kind at least once
-    budget = 12 if quick else 36
+    budget = 9 if quick else 36
     chosen = choose(scenarios, rng, budget, quick)
     npoints = 1 if quick else 2
     stats = {"scenarios": 0, "points": 0, "fd_checks": 0, "ill_conditioned": 0, "identities": 0, "max_fd_rel": 0.0}
     for i, sc in enumerate(chosen):
-        check_scenario(ctx, fac, sc, rng, npoints, v, stats, quick, with_eff=(i % 3 == 0))
+        check_scenario(ctx, fac, sc, rng, npoints, det, stats, quick, with_eff=(i % 3 == 0 or sc["kind"] == "cfit_cached"))
     ctx.part("replay", chosen=len(chosen), **stats)
     if stats["fd_checks"] < 3 * len(chosen):
         raise tlc.MachineryError("too few well-conditioned finite-difference points: %s" % stats)
@@ -318,7 +347,7 @@ def run(ctx):
     ctx.assume("finite differences: steps 4e-4 and 2e-4 times the parameter scale, agreement 1e-5 relative / 1e-7 absolute, ill-conditioned points discarded and counted")
 
 
-SLOW = {"cached_amp": (1, 2), "cached_int": (1, 4), "cfit_cached": (1, 4)}  # tf.function tracing: 10-100 s per first call; (quick, thorough) scenarios
+SLOW = {"cached_amp": (0, 2), "cached_int": (1, 4), "cfit_cached": (1, 4)}  # tf.function tracing: 10-100 s per first call; (quick, thorough) scenarios
 
 
 def choose(scenarios, rng, budget, quick):
@@ -341,6 +370,9 @@ def choose(scenarios, rng, budget, quick):
     for k, (nq, nt) in SLOW.items():
         cand = sorted([s for s in pools.get(k, []) if s["batch"] == "single"], key=lambda s: -richness(s))
         chosen += cand[: (nq if quick else nt)]
+    # always: an extended cfit model with ragged batches (the batch-size clause on the model that once raised there)
+    cand = sorted([s for s in pools.get("cfit_ext", []) if s["batch"] == "ragged"], key=lambda s: -richness(s))
+    chosen += cand[:1]
     ki = 0
     rep = 0
     while len(chosen) < budget and rep < 40:
